@@ -1374,6 +1374,8 @@ def generic_rules(prop, index, rep):
     rep.rule(rid9, "the library's own errors can be raised: every construction of a repository exception class in the property's modules passes keywords and positionals that the __init__ in effect along its MRO accepts")
     with rep.section(rid9):
         nc_ = exception_ctor_rule(index, rep, rid9, mods)
+        nc_ += unraised_exception_rule(index, rep, rid9, mods)
+        nc_ += self_call_binds_rule(index, rep, rid9, mods)
         rep.ob(rid9, "src/dendropy", "%d constructions of repository exception classes examined" % nc_, True, nontrivial=nc_ > 0)
     rid2 = "R%s.V" % prop[1:]
     rep.rule(rid2, "right variable in nested loops: an inner loop over a collection derived from the outer item uses its own item")
@@ -2049,6 +2051,66 @@ def exception_ctor_rule(index, rep, rid, modules):
                           "%s builds `%s`, but the constructor in effect for %s is %s%s: %s - raising the documented parse error then itself fails with a TypeError, which is what the caller sees" % (
                               f.qualname, norm(c)[:70], k.name, init.qualname, "(" + ", ".join(names) + ")",
                               "; ".join(x for x in ["it has no parameter %s" % badkw if badkw else "", "too many positional arguments" if toomany else "", "required %s not given" % missing if missing else ""] if x)))
+    return n
+
+
+def unraised_exception_rule(index, rep, rid, modules):
+    """an error that is built is raised: an expression statement that only constructs an exception (`TypeError(...)`
+    on a line of its own) refuses nothing - the condition it was meant to reject goes through silently."""
+    n = 0
+    for m in modules:
+        for f in index.functions_in_module(m):
+            for st in walk_no_nested(f.node):
+                if isinstance(st, ast.Expr) and isinstance(st.value, ast.Call):
+                    nm = call_name(st.value)
+                    if not nm or not (nm.endswith("Error") or nm.endswith("Exception") or nm == "Warning"):
+                        continue
+                    if isinstance(st.value.func, ast.Attribute) and nm in ("_nexus_error", "_data_parse_error"):
+                        continue
+                    n += 1
+                    builtin_exc = nm in dir(__builtins__) if not isinstance(__builtins__, dict) else nm in __builtins__
+                    repo_exc = any(k.name == nm for k in index.classes.values())
+                    if not (builtin_exc or repo_exc):
+                        continue
+                    rep.check(False, rid, f.qualname, "`%s(...)` built and dropped" % nm, fn_where(f, st), "",
+                              "%s has the statement `%s`: the exception object is created and thrown away - there is no `raise` - so the condition it was written for (an unrecognised option, an invalid value) is accepted silently" % (f.qualname, norm(st.value)[:70]))
+    return n
+
+
+def self_call_binds_rule(index, rep, rid, modules):
+    """a call of one's own method can bind its arguments: `self.m(...)`, resolved to the single method m in effect,
+    gives no parameter two values (`self.m(self, x=...)` hands the receiver in twice), names only keywords the
+    method has, and supplies what is required - otherwise the call is a TypeError for every input that reaches it."""
+    n = 0
+    for m in modules:
+        for f in index.functions_in_module(m):
+            for c in calls_in(f.node, nested=True):
+                if not (isinstance(c.func, ast.Attribute) and norm(c.func.value) == "self"):
+                    continue
+                grade, cands = index.resolve_call(c, f)
+                cs = [x for x in cands if hasattr(x, "node") and isinstance(x.node, ast.FunctionDef)]
+                if grade != "self" or len(cs) != 1:
+                    continue
+                k = cs[0]
+                if any(isinstance(x, ast.Starred) for x in c.args) or any(kw.arg is None for kw in c.keywords):
+                    continue
+                decs = [norm(d) for d in k.node.decorator_list]
+                if any("property" in d for d in decs):
+                    continue
+                a = k.node.args
+                pos = [x.arg for x in a.posonlyargs + a.args]
+                if k.cls is not None and not any("staticmethod" in d for d in decs):
+                    pos = pos[1:]
+                n += 1
+                names = pos + [x.arg for x in a.kwonlyargs]
+                badkw = [kw.arg for kw in c.keywords if kw.arg not in names and a.kwarg is None]
+                toomany = len(c.args) > len(pos) and a.vararg is None
+                dup = [kw.arg for kw in c.keywords if kw.arg in pos[:len(c.args)]]
+                nreq = max(len(pos) - len(a.defaults), 0)
+                missing = [r for i, r in enumerate(pos[:nreq]) if i >= len(c.args) and r not in {kw.arg for kw in c.keywords}]
+                why = "; ".join(x for x in ["`%s` gets two values (positionally and by keyword)" % dup[0] if dup else "", "no parameter %s" % badkw if badkw else "", "too many positional arguments" if toomany else "", "required %s not given" % missing if missing else ""] if x)
+                rep.check(not (badkw or toomany or dup or missing), rid, f.qualname, "`%s` cannot bind its arguments" % norm(c.func), fn_where(f, c), "",
+                          "%s calls `%s`, which resolves to %s(%s): %s - the call raises TypeError whenever it is reached" % (f.qualname, norm(c)[:70], k.qualname, ", ".join(names), why))
     return n
 
 
